@@ -58,6 +58,13 @@ fn gen_querier(rs: u64, tier: Tier) -> Scenario {
         }
         s.op(ta, Op::PeerSend { p: 0, v4: has4, sport: 5353, msg: announce(&recs), to: Dest::Mcast });
         horizon = horizon.max(ta + ttl as u64 * 1000 + 2000).max(tq + 2000);
+        if rng.below(3) == 0 {
+            // the PTR is announced again with another TTL: from then on half-life and the TTL written follow the new one
+            let ttl2 = [2u32, 4, 6, 10, 20, 120, 4500][rng.below(7) as usize];
+            let ta2 = ta + 300 + rng.below(2500);
+            s.op(ta2, Op::PeerSend { p: 0, v4: has4, sport: 5353, msg: announce(&[recs[0].with_ttl(ttl2)]), to: Dest::Mcast });
+            horizon = horizon.max(ta2 + (ttl2 as u64).min(30) * 1000 + 2000);
+        }
     }
     s.horizon_ms = horizon.min(match tier {
         Tier::Quick => 200_000,
